@@ -136,6 +136,7 @@ Definition family (c : exn) : bool :=
 
 Definition is_exception (c : exn) : bool := subclass c K_Exception.
 
+
 (* ------------------------------------------------------------------ *)
 (* 2. sites: where an exception originates.  S_lib = an explicit raise of
    a family class or a typed builtin failure inside the family.  The others
@@ -156,9 +157,14 @@ Inductive site :=
 | S_tlp_definition             (* markings/utils.py check_tlp_marking: marking_obj["definition"] *)
 | S_validator_crash20          (* v20/sdo.py Indicator: run_validator(pattern) outside the wrapper *)
 | S_validator_crash21          (* v21/sdo.py Indicator: run_validator(pattern) outside the wrapper *)
-| S_store.                     (* datastore/memory.py _add: the store's own code, after/around construction *)
+| S_json_depth.                (* utils.py _get_dict: json.loads on a text nested beyond the interpreter's limit *)
 
 Scheme Equality for site.
+
+Definition all_sites : list site :=
+  [S_lib; S_init_extensions_items; S_init_extension_entry; S_init_toplevel_props; S_init_custom_props_keys;
+   S_cons_custom_gm; S_ms20_precision; S_d2s_extensions_items; S_d2s_extension_entry; S_detect_objects;
+   S_detect_type; S_tlp_definition; S_validator_crash20; S_validator_crash21; S_json_depth].
 
 Definition site_fn (s : site) : string :=
   match s with
@@ -172,7 +178,7 @@ Definition site_fn (s : site) : string :=
   | S_tlp_definition => "markings.utils.check_tlp_marking"
   | S_validator_crash20 => "v20.sdo.Indicator._check_object_constraints"
   | S_validator_crash21 => "v21.sdo.Indicator._check_object_constraints"
-  | S_store => "datastore.memory._add"
+  | S_json_depth => "utils._get_dict"
   end.
 
 Definition site_tag (s : site) : string :=
@@ -191,40 +197,19 @@ Definition site_tag (s : site) : string :=
   | S_tlp_definition => "tlp-without-definition"
   | S_validator_crash20 => "indicator20-empty-pattern-validator-crash"
   | S_validator_crash21 => "indicator21-empty-pattern-validator-crash"
-  | S_store => "store"
+  | S_json_depth => "json-text-nesting-depth"
   end.
 
 (* variant = which sites are guarded (true = repaired as in proposed_fixes/C17-*.diff) *)
-Record variant := {
-  g_ext_items : bool; g_ext_entry : bool; g_toplevel : bool; g_custom_props : bool; g_gm : bool;
-  g_ms20 : bool; g_d2s_items : bool; g_d2s_entry : bool; g_det_objects : bool; g_det_type : bool;
-  g_tlp : bool; g_validator20 : bool; g_validator21 : bool }.
+Definition variant := site -> bool.
 
-Definition pinned : variant := Build_variant false false false false false false false false false false false false false.
-Definition repaired : variant := Build_variant true true true true true true true true true true true true true.
+Definition repaired : variant := fun _ => true.
+Definition pinned : variant := fun s => match s with S_lib => true | _ => false end.
+(* the variant in which exactly the listed sites are unguarded *)
+Definition unguarded_at (l : list site) : variant :=
+  fun s => match s with S_lib => true | _ => negb (existsb (site_beq s) l) end.
 
-Definition guarded (V : variant) (s : site) : bool :=
-  match s with
-  | S_lib => true
-  | S_init_extensions_items => g_ext_items V
-  | S_init_extension_entry => g_ext_entry V
-  | S_init_toplevel_props => g_toplevel V
-  | S_init_custom_props_keys => g_custom_props V
-  | S_cons_custom_gm => g_gm V
-  | S_ms20_precision => g_ms20 V
-  | S_d2s_extensions_items => g_d2s_items V
-  | S_d2s_extension_entry => g_d2s_entry V
-  | S_detect_objects => g_det_objects V
-  | S_detect_type => g_det_type V
-  | S_tlp_definition => g_tlp V
-  | S_validator_crash20 => g_validator20 V
-  | S_validator_crash21 => g_validator21 V
-  | S_store => true
-  end.
-
-Definition all_guarded (V : variant) : bool :=
-  g_ext_items V && g_ext_entry V && g_toplevel V && g_custom_props V && g_gm V && g_ms20 V && g_d2s_items V &&
-  g_d2s_entry V && g_det_objects V && g_det_type V && g_tlp V && g_validator20 V && g_validator21 V.
+Definition all_guarded (V : variant) : Prop := forall s, V s = true.
 
 (* ------------------------------------------------------------------ *)
 (* 3. outcome sets                                                       *)
@@ -243,10 +228,13 @@ Definition fail {A} (k : kexn) : M A := raise k S_lib.      (* a raise inside th
 Definition bind {A B} (m : M A) (f : A -> M B) : M B :=
   flat_map (fun r => match r with Val a => f a | Exc e s => [Exc e s] end) m.
 Definition seq {A} (m : M unit) (k : M A) : M A := bind m (fun _ => k).
-(* continue, or raise one of the listed family classes *)
+(* continue, or raise one of the listed classes (all used with family classes) *)
 Definition may (ks : list kexn) : M unit := Val tt :: map (fun k => Exc (Known k) S_lib) ks.
 Definition when (b : bool) (m : M unit) : M unit := if b then m else ret tt.
 Definition lift {A} (r : res A) : M A := [r].
+(* an operation that fails with class k at site s on the pinned code and does `fixed` once the site is guarded *)
+Definition guard {A} (V : variant) (s : site) (k : kexn) (fixed : M A) : M A :=
+  if V s then fixed else raise k s.
 
 Notation "x <- m ;; k" := (bind m (fun x => k)) (at level 61, m at next level, right associativity).
 Notation "m ;;; k" := (seq m k) (at level 61, right associativity).
@@ -266,8 +254,13 @@ Definition check_property_wrapper (r : clean_result) : res unit :=
       else Exc e S_lib      (* KeyboardInterrupt etc. are not caught *)
   end.
 
-(* what the rest of the model uses for a cleaned slot: Ok or InvalidValueError *)
-Definition wrapped_clean : M unit := may [K_InvalidValueError].
+(* The cleaning of one slot as the rest of the model sees it.  Two instances:
+   - `clean_any`: the set {Ok, InvalidValueError}, used when the model is evaluated;
+   - `clean_via cl`: the wrapper applied to an arbitrary black box `cl`, used in the theorems. *)
+Definition cleaner := ustring -> jvalue -> M unit.
+Definition clean_any : cleaner := fun _ _ => may [K_InvalidValueError].
+Definition blackbox := ustring -> jvalue -> clean_result.
+Definition clean_via (cl : blackbox) : cleaner := fun n v => lift (check_property_wrapper (cl n v)).
 
 (* ------------------------------------------------------------------ *)
 (* 5. typed dynamic operations on raw JSON                                *)
@@ -291,6 +284,8 @@ Definition truthy (j : jvalue) : bool :=
   | JArr l => match l with [] => false | _ => true end
   | JObj m => match m with [] => false | _ => true end
   end.
+
+Definition otruthy (o : option jvalue) : bool := match o with Some v => truthy v | None => false end.
 
 Definition str_is (j : jvalue) (s : ustring) : bool :=
   match j with JStr t => ustr_eqb t s | _ => false end.
@@ -317,22 +312,6 @@ Definition py_in (lit : ustring) (x : jvalue) : M bool :=
   | _ => fail K_TypeError
   end.
 
-(* `x["lit"]`; a missing key raises KeyError at site s *)
-Definition py_subscript (x : jvalue) (lit : ustring) (s : site) : M jvalue :=
-  match x with
-  | JObj m => match jlookup lit m with Some v => ret v | None => raise K_KeyError s end
-  | _ => fail K_TypeError
-  end.
-
-(* iteration *)
-Definition py_iter (x : jvalue) : M (list jvalue) :=
-  match x with
-  | JArr l => ret l
-  | JStr s => ret (map (fun c => JStr [c]) s)
-  | JObj m => ret (map (fun kv => JStr (fst kv)) m)
-  | _ => fail K_TypeError
-  end.
-
 (* `v not in (None, [])` *)
 Definition kept (v : jvalue) : bool :=
   match v with JNull => false | JArr [] => false | _ => true end.
@@ -346,6 +325,8 @@ Fixpoint remove_key (k : ustring) (m : list (ustring * jvalue)) : list (ustring 
 Definition set_key (k : ustring) (v : jvalue) (m : list (ustring * jvalue)) : list (ustring * jvalue) :=
   if mem_key k m then map (fun kv => if ustr_eqb (fst kv) k then (k, v) else kv) m else m ++ [(k, v)].
 
+Definition keys (m : list (ustring * jvalue)) : list ustring := map fst m.
+
 (* ------------------------------------------------------------------ *)
 (* 6. class descriptors and registries (instances are GENERATED from the
       live classes into Gen/C17Classes.v on every run)                    *)
@@ -354,49 +335,38 @@ Inductive refkind := RefNone | RefOne | RefMany.
 
 Record slot := { s_name : ustring; s_required : bool; s_default : bool; s_ref : refkind }.
 
-Inductive bkind := BPlain | BObs20 | BObs21.
+Inductive bkind := BPlain | BObs20 | BObs21 | BExt.
 
-(* __init__ overrides (v20/v21), keyed by the defining class *)
+(* __init__ overrides (v20/v21), most derived first *)
 Inductive prehook :=
 | PreMarkingDef20            (* v20/common.py MarkingDefinition.__init__ *)
 | PreMarkingDef21            (* v21/common.py MarkingDefinition.__init__ *)
-| PreAliases (names : list ustring)   (* named parameters that are copied back only when truthy:
+| PreAliases (names : list ustring)   (* named parameters copied back only when truthy:
                                          StatementMarking(statement), Relationship(source_ref, relationship_type,
                                          target_ref), Sighting(sighting_of_ref) *)
 | PreNoop                    (* Bundle (positional args), Indicator 2.1 (pattern_version default), ObservedData 2.1 (warning) *)
-| PreUnknown.                (* an __init__ override the model does not know: assumed to stay in the family *)
+| PreUnknown.                (* an __init__ override the model does not know: may raise anything *)
 
-(* _check_object_constraints overrides, keyed by the defining class *)
+(* _check_object_constraints bodies, flattened by the generator into the order in which the checks run *)
 Inductive conshook :=
-| ConsBase                   (* base.py _STIXBase: granular marking selectors *)
-| ConsExtension              (* base.py _Extension: at least one property *)
-| ConsAtLeastOne (names : list ustring)
-| ConsAtLeastOneDefault
-| ConsGranularMarking21
-| ConsMarkingDef20
-| ConsMarkingDef21
-| ConsArtifact
-| ConsEmailMessage
-| ConsExternalReference21
-| ConsProcess
-| ConsSocketExt
-| ConsNetworkTraffic21
-| ConsOrdered (a b : ustring)      (* `if a and b and b < a: raise ValueError` on two cleaned timestamps *)
-| ConsIndicator20
-| ConsIndicator21
-| ConsLocation
-| ConsMalware
-| ConsObservedData21
-| ConsUnknown.               (* an override the model does not know: assumed to stay in the family *)
+| ConsBase                               (* base.py _STIXBase: validate(self, m.get('selectors')) per granular marking *)
+| ConsAtLeastOne (names : list ustring)  (* _check_at_least_one_property(names): presence only *)
+| ConsAtLeastOneDefault                  (* _check_at_least_one_property(): all properties but the excepted ones *)
+| ConsMutex (names : list ustring) (at_least_one : bool)   (* _check_mutually_exclusive_properties *)
+| ConsMay (ks : list kexn)               (* a test on CLEANED values that may raise one of these family classes *)
+| ConsTLP20                              (* check_tlp_marking(self, '2.0') *)
+| ConsMarkingDef21                       (* presence test + check_tlp_marking(self, '2.1') *)
+| ConsIndicator20                        (* run_validator(pattern, '2.0') *)
+| ConsIndicator21                        (* if pattern_type == 'stix': run_validator(pattern, pattern_version) *)
+| ConsUnknown.                           (* an override the model does not know: may raise anything *)
 
 Record cls := {
   c_key : string;             (* e.g. "v21.sdo.Identity" *)
-  c_ver20 : bool;
+  c_ver20 : bool;             (* isinstance(self, stix2.v20._STIXBase20) *)
   c_kind : bkind;
   c_slots : list slot;
-  c_pre : list prehook;       (* most derived first *)
-  c_cons : list conshook;     (* most derived first; every known hook except ConsIndicator20 calls super first *)
-  c_idcontrib : list ustring }.
+  c_pre : list prehook;
+  c_cons : list conshook }.
 
 Record extreg := { x_name : ustring; x_toplevel : option (list slot) }.   (* None: no _toplevel_properties attribute *)
 
@@ -410,6 +380,23 @@ Fixpoint alookup {A} (k : ustring) (l : list (ustring * A)) : option A :=
   | [] => None
   | (k', v) :: r => if ustr_eqb k k' then Some v else alookup k r
   end.
+
+Definition find_ext (R : registry) (k : ustring) : option extreg :=
+  find (fun x => ustr_eqb (x_name x) k) (r_extensions21 R).
+
+(* no hook the model does not know *)
+Definition pre_known (p : prehook) : bool := match p with PreUnknown => false | _ => true end.
+Definition cons_known (c : conshook) : bool :=
+  match c with
+  | ConsUnknown => false
+  | ConsMay ks => forallb (fun k => family (Known k)) ks      (* only family classes may be listed *)
+  | _ => true
+  end.
+Definition cls_known (c : cls) : bool := forallb pre_known (c_pre c) && forallb cons_known (c_cons c).
+Definition tbl_known (t : list (ustring * cls)) : bool := forallb (fun kc => cls_known (snd kc)) t.
+Definition reg_known (R : registry) : bool :=
+  tbl_known (r_objects20 R) && tbl_known (r_observables20 R) && tbl_known (r_markings20 R) &&
+  tbl_known (r_objects21 R) && tbl_known (r_observables21 R) && tbl_known (r_markings21 R).
 
 Inductive category := CatObjects | CatObservables.
 
@@ -431,7 +418,9 @@ Definition class_for_type (R : registry) (ty ver : jvalue) (cat : category) : M 
 (* ------------------------------------------------------------------ *)
 (* 7. utils.py _get_dict                                                  *)
 
-Definition decoder := ustring -> option jvalue.   (* json.loads on a text: None = JSONDecodeError *)
+(* json.loads on a text *)
+Inductive textres := TDecoded (j : jvalue) | TBad | TTooDeep.
+Definition decoder := ustring -> textres.
 
 Definition pair_of (e : jvalue) : option (jvalue * jvalue) :=
   match e with
@@ -459,10 +448,14 @@ Fixpoint dict_of_pairs (l : list jvalue) (acc : list (ustring * jvalue)) (nonstr
   end.
 
 (* value, and whether the dict has a key that is not a string (then `**d` is a TypeError) *)
-Definition get_dict (dec : decoder) (x : jvalue) : M (jvalue * bool) :=
+Definition get_dict (V : variant) (dec : decoder) (x : jvalue) : M (jvalue * bool) :=
   match x with
   | JObj _ => ret (x, false)
-  | JStr s => match dec s with Some j => ret (j, false) | None => fail K_JSONDecodeError end
+  | JStr s => match dec s with
+              | TDecoded j => ret (j, false)
+              | TBad => fail K_JSONDecodeError
+              | TTooDeep => guard V S_json_depth K_RecursionError (fail K_ValueError)
+              end
   | JArr l => match dict_of_pairs l [] false with
               | Some (m, ns) => ret (JObj m, ns)
               | None => fail K_ValueError
@@ -481,75 +474,513 @@ Definition py_max2 (a b : jvalue) : M jvalue :=
   | _, _ => [Exc (Known K_TypeError) S_lib; Val a; Val b]
   end.
 
+(* max(generator): elements are evaluated and compared one at a time, the first exception wins *)
+Fixpoint max_seq (rs : list (M jvalue)) (acc : option jvalue) : M (option jvalue) :=
+  match rs with
+  | [] => ret acc
+  | r :: rest =>
+      v <- r ;;
+      match acc with
+      | None => max_seq rest (Some v)
+      | Some a => w <- py_max2 a v ;; max_seq rest (Some w)
+      end
+  end.
+
 Section Detect.
   Variable V : variant.
-  Variable R : registry.
+  Variable obs21 : list (ustring * cls).     (* STIX2_OBJ_MAPS["2.1"]["observables"] *)
 
-  Definition detect_head (j : jvalue) : M jvalue :=
-    match j with
-    | JObj m => match jlookup (us "type") m with
-                | Some t => ret t
-                | None => if g_det_type V then fail K_ParseError else raise K_KeyError S_detect_type
-                end
-    | _ => fail K_TypeError
+  (* what `detect_spec_version(obj) for obj in <objects>` yields, given the results for list elements *)
+  Definition objects_results (objs : jvalue) (elems : list (M jvalue)) : option (list (M jvalue)) :=
+    match objs with
+    | JArr _ => Some elems
+    | JStr s => Some (map (fun _ => fail K_TypeError) s)       (* "c"["type"] *)
+    | JObj mm => Some (map (fun _ => fail K_TypeError) mm)     (* iterating keys: strings *)
+    | _ => None                                                (* not iterable *)
     end.
 
-  (* fold of max() over the generator: elements are evaluated and compared one at a time *)
-  Fixpoint max_fold (f : jvalue -> M jvalue) (l : list jvalue) (acc : option jvalue) : M (option jvalue) :=
-    match l with
-    | [] => ret acc
-    | e :: r =>
-        v <- f e ;;
-        match acc with
-        | None => max_fold f r (Some v)
-        | Some a => w <- py_max2 a v ;; max_fold f r (Some w)
+  Definition bundle_version (objs : option (jvalue * list (M jvalue))) : M jvalue :=
+    match objs with
+    | None => guard V S_detect_objects K_KeyError (ret (JStr (us "2.1")))
+    | Some (o, elems) =>
+        match objects_results o elems with
+        | None => fail K_TypeError
+        | Some rs =>
+            inner <- max_seq rs None ;;
+            match inner with
+            | None => if V S_detect_objects then ret (JStr (us "2.1")) else fail K_ValueError   (* max() of nothing *)
+            | Some w => py_max2 (JStr (us "2.1")) w
+            end
         end
     end.
 
   Fixpoint detect (j : jvalue) : M jvalue :=
     match j with
     | JObj m =>
-        ty <- detect_head j ;;
-        if mem_key (us "spec_version") m then
-          (if str_is ty (us "bundle") then ret (JStr (us "2.0"))
-           else match jlookup (us "spec_version") m with Some v => ret v | None => ret JNull end)
-        else if negb (mem_key (us "id") m) then ret (JStr (us "2.0"))
-        else if str_is ty (us "bundle") then
-          match jlookup (us "objects") m with
-          | None => if g_det_objects V then ret (JStr (us "2.1")) else raise K_KeyError S_detect_objects
-          | Some objs =>
-              let elems :=
-                match objs with
-                | JArr l => Some (map detect l)
-                | JStr s => Some (map (fun _ => fail K_TypeError) s)       (* "c"["type"] *)
-                | JObj mm => Some (map (fun _ => fail K_TypeError) mm)     (* iterating keys: strings *)
-                | _ => None
-                end in
-              match elems with
-              | None => fail K_TypeError
-              | Some rs =>
-                  inner <- (fix go (rs : list (M jvalue)) (acc : option jvalue) : M (option jvalue) :=
-                              match rs with
-                              | [] => ret acc
-                              | r :: rest =>
-                                  v <- r ;;
-                                  match acc with
-                                  | None => go rest (Some v)
-                                  | Some a => w <- py_max2 a v ;; go rest (Some w)
-                                  end
-                              end) rs None ;;
-                  match inner with
-                  | None => if g_det_objects V then ret (JStr (us "2.1")) else fail K_ValueError   (* max() of nothing *)
-                  | Some (JStr x) => ret (JStr (if ustr_ltb (us "2.1") x then x else us "2.1"))
-                  | Some _ => fail K_TypeError
-                  end
-              end
-          end
-        else if negb (hashable ty) then fail K_TypeError
-        else match ty with
-             | JStr s => ret (JStr (us (match alookup s (r_observables21 R) with Some _ => "2.1" | None => "2.0" end)))
-             | _ => ret (JStr (us "2.0"))
-             end
+        let objs := (fix find (m : list (ustring * jvalue)) : option (jvalue * list (M jvalue)) :=
+                       match m with
+                       | [] => None
+                       | (k, v) :: rest =>
+                           if ustr_eqb (us "objects") k then
+                             Some (v, match v with
+                                      | JArr l => (fix each (l : list jvalue) : list (M jvalue) :=
+                                                     match l with [] => [] | x :: r => detect x :: each r end) l
+                                      | _ => []
+                                      end)
+                           else find rest
+                       end) m in
+        match jlookup (us "type") m with
+        | None => guard V S_detect_type K_KeyError (fail K_ParseError)
+        | Some ty =>
+            match jlookup (us "spec_version") m with
+            | Some sv => if str_is ty (us "bundle") then ret (JStr (us "2.0")) else ret sv
+            | None =>
+                if negb (mem_key (us "id") m) then ret (JStr (us "2.0"))
+                else if str_is ty (us "bundle") then bundle_version objs
+                else if negb (hashable ty) then fail K_TypeError
+                else match ty with
+                     | JStr s => ret (JStr (us (match alookup s obs21 with Some _ => "2.1" | None => "2.0" end)))
+                     | _ => ret (JStr (us "2.0"))
+                     end
+            end
+        end
     | _ => fail K_TypeError    (* stix_dict["type"] on a str / list / number *)
     end.
 End Detect.
+
+(* ------------------------------------------------------------------ *)
+(* 9. base.py _STIXBase.__init__                                          *)
+
+Definition prefix21 (n : ustring) : bool :=       (* PREFIX_21_REGEX = ^[a-z].* *)
+  match n with c :: _ => (97 <=? c)%N && (c <=? 122)%N | [] => false end.
+
+Definition ustr_suffix (suf s : ustring) : bool := ustr_prefix (rev suf) (rev s).
+
+Definition find_slot (n : ustring) (l : list slot) : option slot := find (fun s => ustr_eqb (s_name s) n) l.
+
+(* insertion sort on names (sorted(all_custom_prop_names)) *)
+Fixpoint ins_name (x : ustring) (l : list ustring) : list ustring :=
+  match l with
+  | [] => [x]
+  | y :: r => if ustr_ltb y x then y :: ins_name x r else x :: l
+  end.
+Definition sort_names (l : list ustring) : list ustring := fold_right ins_name [] l.
+
+Fixpoint dedup_names (l : list ustring) : list ustring :=
+  match l with
+  | [] => []
+  | x :: r => if mem_name x r then dedup_names r else x :: dedup_names r
+  end.
+
+Section Init.
+  Variable V : variant.
+  Variable R : registry.
+  Variable clean : cleaner.
+
+  (* the scan of `extensions` for toplevel-property-extension entries:
+     (registered toplevel slots, has_unregistered_toplevel_extension) *)
+  Fixpoint scan_entries (m : list (ustring * jvalue)) (tl : list slot) (unreg : bool) : M (list slot * bool) :=
+    match m with
+    | [] => ret (tl, unreg)
+    | (k, e) :: r =>
+        match e with
+        | JObj em =>
+            if match jlookup (us "extension_type") em with
+               | Some t => str_is t (us "toplevel-property-extension") | None => false end
+            then match find_ext R k with
+                 | Some x => match x_toplevel x with
+                             | Some sl => scan_entries r (sl ++ tl)%list unreg
+                             | None => guard V S_init_toplevel_props K_AttributeError (scan_entries r tl unreg)
+                             end
+                 | None => scan_entries r tl true
+                 end
+            else scan_entries r tl unreg
+        | _ => guard V S_init_extension_entry K_AttributeError (scan_entries r tl unreg)
+        end
+    end.
+
+  Definition ext_scan (ext : option jvalue) : M (list slot * bool) :=
+    match ext with
+    | None => ret ([], false)
+    | Some e =>
+        if negb (truthy e) then ret ([], false)
+        else match e with
+             | JObj m => scan_entries m [] false
+             | _ => guard V S_init_extensions_items K_AttributeError (ret ([], false))
+             end
+    end.
+
+  (* base.py _Observable._check_ref, after the slot was cleaned; vr = the raw _valid_refs *)
+  Definition check_ref (vr : jvalue) : M unit :=
+    match vr with
+    | JNull | JBool _ | JInt _ | JFloat _ => fail K_TypeError           (* '*' in 5 *)
+    | JArr [] | JStr [] | JObj [] => may [K_InvalidObjRefError]          (* no check happens for an empty _refs list *)
+    | JArr l => if existsb (fun e => str_is e (us "*")) l then ret tt else may [K_InvalidObjRefError; K_ValueError]
+    | JStr s => if ustr_contains (us "*") s then ret tt else may [K_InvalidObjRefError; K_ValueError]
+    | JObj m => if mem_key (us "*") m then ret tt else may [K_InvalidObjRefError; K_ValueError]
+    end.
+
+  (* _check_property for one defined slot; returns whether the slot is set afterwards *)
+  Definition check_slot (kind : bkind) (vr : jvalue) (s : slot) (val : option jvalue) : M bool :=
+    match val with
+    | Some v =>
+        clean (s_name s) v ;;;
+        match kind, s_ref s with
+        | BObs20, RefOne | BObs20, RefMany | BObs21, RefOne | BObs21, RefMany => check_ref vr ;;; ret true
+        | _, _ => ret true
+        end
+    | None =>
+        if s_default s then
+          (* the default value goes through clean() as well *)
+          clean (s_name s) JNull ;;;
+          match kind, s_ref s with
+          | BObs20, RefOne | BObs20, RefMany | BObs21, RefOne | BObs21, RefMany => check_ref vr ;;; ret true
+          | _, _ => ret true
+          end
+        else ret false
+    end.
+
+  (* the property loop: names in order; `present` accumulates the keys of setting_kwargs *)
+  Fixpoint prop_loop (kind : bkind) (vr : jvalue) (defined : list slot) (assigned : ustring -> option jvalue)
+           (order : list ustring) (present : list ustring) : M (list ustring) :=
+    match order with
+    | [] => ret present
+    | n :: rest =>
+        let val := match assigned n with Some v => if kept v then Some v else None | None => None end in
+        match find_slot n defined with
+        | Some s =>
+            b <- check_slot kind vr s val ;;
+            prop_loop kind vr defined assigned rest (if b then (present ++ [n])%list else present)
+        | None =>
+            prop_loop kind vr defined assigned rest (match val with Some _ => (present ++ [n])%list | None => present end)
+        end
+    end.
+
+  (* ---- _check_object_constraints ---- *)
+
+  Definition default_checked (c : cls) : list ustring :=
+    let exc := ([us "extensions"; us "type"] ++
+               match c_kind c with BObs20 | BObs21 => [us "id"; us "defanged"; us "spec_version"] | _ => [] end)%list in
+    filter (fun n => negb (mem_name n exc)) (map s_name (c_slots c)).
+
+  Definition count_present (names present : list ustring) : nat :=
+    List.length (filter (fun n => mem_name n present) (dedup_names names)).
+
+  (* base.py _check_object_constraints: for m in self.get('granular_markings', []): validate(self, m.get('selectors')) *)
+  Definition cons_base (c : cls) (present : list ustring) (raw : ustring -> option jvalue) : M unit :=
+    if negb (mem_name (us "granular_markings") present) then ret tt
+    else match find_slot (us "granular_markings") (c_slots c) with
+         | Some _ => may [K_InvalidSelectorError]            (* cleaned GranularMarking objects *)
+         | None =>
+             (* an uncleaned custom (or toplevel-extension) property of that name *)
+             match raw (us "granular_markings") with
+             | Some (JArr l) =>
+                 if forallb is_obj l then may [K_InvalidSelectorError; K_TypeError]
+                 else guard V S_cons_custom_gm K_AttributeError (fail K_InvalidValueError)
+             | Some (JObj m) =>       (* iterates the keys: strings *)
+                 match m with [] => ret tt | _ => guard V S_cons_custom_gm K_AttributeError (fail K_InvalidValueError) end
+             | Some (JStr s) =>
+                 match s with [] => ret tt | _ => guard V S_cons_custom_gm K_AttributeError (fail K_InvalidValueError) end
+             | Some _ => if V S_cons_custom_gm then fail K_InvalidValueError else fail K_TypeError     (* not iterable *)
+             | None => ret tt
+             end
+         end.
+
+  Definition cons_one (c : cls) (present : list ustring) (raw : ustring -> option jvalue) (h : conshook) : M unit :=
+    match h with
+    | ConsBase => cons_base c present raw
+    | ConsAtLeastOne names =>
+        match names with
+        | [] => ret tt
+        | _ => if Nat.eqb (count_present names present) 0 then fail K_AtLeastOnePropertyError else ret tt
+        end
+    | ConsAtLeastOneDefault =>
+        match default_checked c with
+        | [] => ret tt
+        | names => if Nat.eqb (count_present names present) 0 then fail K_AtLeastOnePropertyError else ret tt
+        end
+    | ConsMutex names alo =>
+        let n := count_present names present in
+        if Nat.ltb 1 n || (alo && Nat.eqb n 0) then fail K_MutuallyExclusivePropertiesError else ret tt
+    | ConsMay ks => may ks
+    | ConsTLP20 =>
+        match raw (us "definition_type") with
+        | Some t => if str_is t (us "tlp") then may [K_TLPMarkingDefinitionError] else ret tt
+        | None => ret tt
+        end
+    | ConsMarkingDef21 =>
+        let has_def := mem_name (us "definition") present in
+        let dt := if mem_name (us "definition_type") present then raw (us "definition_type") else None in
+        let is_tlp := match dt with Some t => str_is t (us "tlp") | None => false end in
+        when (negb (otruthy dt && has_def)) (may [K_PropertyPresenceError]) ;;;
+        if is_tlp then
+          (if has_def then may [K_TLPMarkingDefinitionError]
+           else guard V S_tlp_definition K_KeyError (fail K_TLPMarkingDefinitionError))
+        else ret tt
+    | ConsIndicator20 =>
+        match raw (us "pattern") with
+        | Some (JStr []) => guard V S_validator_crash20 K_UnboundLocalError (fail K_InvalidValueError)
+        | _ => may [K_InvalidValueError]
+        end
+    | ConsIndicator21 =>
+        match raw (us "pattern_type") with
+        | Some t =>
+            if str_is t (us "stix") then
+              match raw (us "pattern") with
+              | Some (JStr []) => guard V S_validator_crash21 K_UnboundLocalError (fail K_InvalidValueError)
+              | _ => may [K_InvalidValueError]
+              end
+            else ret tt
+        | None => ret tt
+        end
+    | ConsUnknown => (map (fun k => Exc (Known k) S_lib) all_kexn ++ [Val tt])%list
+    end.
+
+  Fixpoint cons_chain (c : cls) (present : list ustring) (raw : ustring -> option jvalue) (hs : list conshook) : M unit :=
+    match hs with
+    | [] => ret tt
+    | h :: r => cons_one c present raw h ;;; cons_chain c present raw r
+    end.
+
+  (* _STIXBase.__init__(allow_custom, **kw) for class c; vr = the _valid_refs popped by _Observable.__init__ *)
+  Definition base_init (c : cls) (ac : bool) (kw : list (ustring * jvalue)) (vr : jvalue) : M unit :=
+    let cp := jlookup (us "custom_properties") kw in
+    let kw1 := remove_key (us "custom_properties") kw in
+    cpm <- match cp with
+           | None => ret (Some [])
+           | Some (JObj m) => ret (Some m)
+           | Some v => if truthy v then fail K_ValueError
+                       else if V S_init_custom_props_keys then fail K_ValueError
+                       else ret None        (* falsy non-dict: custom_props.keys() fails below *)
+           end ;;
+    scan <- ext_scan (jlookup (us "extensions") kw1) ;;
+    let tl := fst scan in
+    let unreg := snd scan in
+    let propnames := map s_name (c_slots c) in
+    let tlnames := map s_name tl in
+    let extra := filter (fun k => negb (mem_name k propnames)) (keys kw1) in
+    let custom_kwargs := if unreg then [] else filter (fun k => negb (mem_name k tlnames)) extra in
+    if match custom_kwargs with [] => false | _ => negb ac end then fail K_ExtraPropertiesError
+    else
+      match cpm with
+      | None => guard V S_init_custom_props_keys K_AttributeError (fail K_ValueError)   (* None only arises when unguarded *)
+      | Some cpm' =>
+          let ac' := ac || otruthy cp in
+          let all_custom := dedup_names (filter (fun k => negb (mem_name k propnames)) (custom_kwargs ++ keys cpm')%list) in
+          if negb (c_ver20 c) && existsb (fun n => negb (prefix21 n)) all_custom then fail K_InvalidValueError
+          else
+            let defined := (c_slots c ++ tl)%list in
+            let assigned := fun k => match jlookup k kw1 with Some v => Some v | None => jlookup k cpm' end in
+            let tl_order := dedup_names (tlnames ++ filter (fun k => negb (mem_name k custom_kwargs)) extra)%list in
+            let order := (propnames ++ filter (fun k => negb (mem_name k propnames)) tl_order ++ sort_names all_custom)%list in
+            present <- prop_loop (c_kind c) vr defined assigned order [] ;;
+            if existsb (fun s => s_required s && negb (mem_name (s_name s) present)) defined
+            then fail K_MissingPropertiesError
+            else
+              cons_chain c present assigned (c_cons c) ;;;
+              when (negb ac') (may [K_STIXError])      (* "a clean() method did not properly enforce allow_custom=False" *)
+      end.
+
+  (* ---- __init__ overrides ---- *)
+
+  (* the call cls(allow_custom=.., interoperability=.., and the dict as keywords) itself *)
+  Definition call_check (kw : list (ustring * jvalue)) (nonstr : bool) : M unit :=
+    if nonstr then fail K_TypeError                                       (* keywords must be strings *)
+    else if mem_key (us "allow_custom") kw || mem_key (us "interoperability") kw || mem_key (us "self") kw
+    then fail K_TypeError                                                 (* got multiple values for argument *)
+    else ret tt.
+
+  Definition apply_aliases (names : list ustring) (kw : list (ustring * jvalue)) : list (ustring * jvalue) :=
+    fold_left (fun acc n => match jlookup n acc with
+                            | Some v => if truthy v then acc else remove_key n acc
+                            | None => acc end) names kw.
+
+  (* a class without a MarkingDefinition-style __init__ (used for the marking types themselves) *)
+  Definition construct0 (c : cls) (ac : bool) (kw : list (ustring * jvalue)) : M unit :=
+    let kw' := fold_left (fun acc p => match p with PreAliases ns => apply_aliases ns acc | _ => acc end) (c_pre c) kw in
+    if negb (forallb pre_known (c_pre c)) then (map (fun k => Exc (Known k) S_lib) all_kexn ++ [Val tt])%list
+    else
+      let vr := match c_kind c with
+                | BObs20 | BObs21 => match jlookup (us "_valid_refs") kw' with Some v => v | None => JArr [] end
+                | _ => JArr [] end in
+      let kw'' := match c_kind c with BObs20 | BObs21 => remove_key (us "_valid_refs") kw' | _ => kw' end in
+      base_init c ac kw'' vr ;;;
+      match c_kind c with
+      | BObs21 => if mem_key (us "id") kw' then ret tt else may [K_InvalidValueError; K_ValueError]    (* _generate_id *)
+      | _ => ret tt
+      end.
+
+  (* MarkingDefinition.__init__ (2.0 and 2.1): builds the marking-type object from raw input *)
+  Definition marking_pre (dec : decoder) (v20 : bool) (kw : list (ustring * jvalue)) : M unit :=
+    match jlookup (us "definition_type") kw, jlookup (us "definition") kw with
+    | Some dt, Some defn =>
+        if negb (hashable dt) then fail K_TypeError
+        else
+          match match dt with JStr s => alookup s (if v20 then r_markings20 R else r_markings21 R) | _ => None end with
+          | None => fail K_ValueError                          (* except KeyError: raise ValueError *)
+          | Some mc =>
+              (if v20 then
+                 match jlookup (us "created") kw with
+                 | Some cr =>
+                     (* _should_set_millisecond(cr, marking_type) *)
+                     if str_is dt (us "tlp") then ret tt
+                     else if is_str cr then ret tt
+                     else guard V S_ms20_precision K_AttributeError (ret tt)
+                 | None => ret tt
+                 end
+               else ret tt) ;;;
+              d <- get_dict V dec defn ;;
+              match fst d with
+              | JObj dm => call_check dm (snd d) ;;; construct0 mc false dm
+              | _ => fail K_TypeError                            (* marking_type applied to a non-mapping *)
+              end
+          end
+    | _, _ => ret tt
+    end.
+
+  Definition construct (dec : decoder) (c : cls) (ac : bool) (kw : list (ustring * jvalue)) : M unit :=
+    match c_pre c with
+    | PreMarkingDef20 :: rest => marking_pre dec true kw ;;; construct0 {| c_key := c_key c; c_ver20 := c_ver20 c; c_kind := c_kind c; c_slots := c_slots c; c_pre := rest; c_cons := c_cons c |} ac kw
+    | PreMarkingDef21 :: rest => marking_pre dec false kw ;;; construct0 {| c_key := c_key c; c_ver20 := c_ver20 c; c_kind := c_kind c; c_slots := c_slots c; c_pre := rest; c_cons := c_cons c |} ac kw
+    | _ => construct0 c ac kw
+    end.
+
+  (* ------------------------------------------------------------------ *)
+  (* 10. parsing.py                                                        *)
+
+  (* the scan of `extensions` in dict_to_stix2 for an unregistered type: true = return the dict as is *)
+  Fixpoint d2s_scan (m : list (ustring * jvalue)) : M bool :=
+    match m with
+    | [] => ret false
+    | (k, e) :: r =>
+        if ustr_prefix (us "extension-definition--") k then
+          match e with
+          | JObj em =>
+              match jlookup (us "extension_type") em with
+              | None => ret true                                 (* '' does not contain it *)
+              | Some t =>
+                  b <- py_in (us "property-extension") t ;;
+                  if b then d2s_scan r else ret true
+              end
+          | _ => guard V S_d2s_extension_entry K_AttributeError (d2s_scan r)
+          end
+        else d2s_scan r
+    end.
+
+  Inductive parsed := PObject | PDictAsIs.
+
+  Definition version_of (version : option ustring) (d : jvalue) : M jvalue :=
+    match version with
+    | Some (c :: s) => ret (JStr (c :: s))
+    | _ => detect V (r_observables21 R) d
+    end.
+
+  (* d["type"] after `'type' in d` held *)
+  Definition type_of (d : jvalue) : M jvalue :=
+    match d with
+    | JObj m => match jlookup (us "type") m with Some t => ret t | None => fail K_ParseError end
+    | _ => fail K_TypeError
+    end.
+
+  Definition dict_to_stix2 (dec : decoder) (d : jvalue) (nonstr : bool) (ac : bool) (version : option ustring) : M parsed :=
+    has <- py_in (us "type") d ;;
+    if negb has then fail K_ParseError
+    else
+      ver <- version_of version d ;;
+      ty <- type_of d ;;
+      c1 <- class_for_type R ty ver CatObjects ;;
+      c2 <- match c1 with Some c => ret (Some c) | None => class_for_type R ty ver CatObservables end ;;
+      match c2, d with
+      | Some c, JObj m => call_check m nonstr ;;; construct dec c ac m ;;; ret PObject
+      | Some _, _ => fail K_TypeError
+      | None, JObj m =>
+          if ac then ret PDictAsIs
+          else match jlookup (us "extensions") m with
+               | None => fail K_ParseError
+               | Some (JObj em) => b <- d2s_scan em ;; if b then ret PDictAsIs else fail K_ParseError
+               | Some _ => guard V S_d2s_extensions_items K_AttributeError (fail K_ParseError)
+               end
+      | None, _ => fail K_TypeError
+      end.
+
+  Definition parse (dec : decoder) (x : jvalue) (ac : bool) (version : option ustring) : M parsed :=
+    d <- get_dict V dec x ;;
+    dict_to_stix2 dec (fst d) (snd d) ac version.
+
+  Definition parse_observable (dec : decoder) (x : jvalue) (valid_refs : jvalue) (ac : bool) (version : option ustring) : M parsed :=
+    d <- get_dict V dec x ;;
+    has <- py_in (us "type") (fst d) ;;
+    if negb has then fail K_ParseError
+    else
+      match fst d with
+      | JObj m0 =>
+          let m := set_key (us "_valid_refs") (if truthy valid_refs then valid_refs else JArr []) m0 in
+          ver <- version_of version (JObj m) ;;
+          ty <- type_of (JObj m) ;;
+          c <- class_for_type R ty ver CatObservables ;;
+          match c with
+          | Some c => call_check m (snd d) ;;; construct dec c ac m ;;; ret PObject
+          | None => if ac then ret PDictAsIs else fail K_ParseError
+          end
+      | _ => fail K_TypeError        (* obj['_valid_refs'] = ... on a str / list *)
+      end.
+End Init.
+
+(* ------------------------------------------------------------------ *)
+(* 11. datastore/memory.py _add: the store as explicit state              *)
+
+(* The store is the list of inputs whose construction succeeded, in order.
+   `store_add` returns, for every resolution of the construction, the new
+   store and whether an exception escaped. *)
+Inductive added := Added | Escaped (e : exn) (s : site).
+
+Section Store.
+  Variable V : variant.
+  Variable R : registry.
+  Variable clean : cleaner.
+  Variable dec : decoder.
+
+  Definition store := list jvalue.
+
+  (* one non-bundle, non-list input *)
+  Definition store_add_one (st : store) (x : jvalue) (version : option ustring) : list (store * added) :=
+    map (fun r => match r with
+                  | Val _ => ((st ++ [x])%list, Added)
+                  | Exc e s => (st, Escaped e s)
+                  end) (parse V R clean dec x true version).
+
+  (* a list of such inputs, left to right; the first escaping exception stops the loop *)
+  Fixpoint store_add_list (st : store) (xs : list jvalue) (version : option ustring) : list (store * added) :=
+    match xs with
+    | [] => [(st, Added)]
+    | x :: r =>
+        flat_map (fun sa => match snd sa with
+                            | Added => store_add_list (fst sa) r version
+                            | Escaped e s => [sa]
+                            end) (store_add_one st x version)
+    end.
+End Store.
+
+(* ------------------------------------------------------------------ *)
+(* 12. rendering (case files)                                             *)
+
+Fixpoint show_exn (e : exn) : string :=
+  match e with Known k => kname k | Derived _ b => "Derived:" ++ show_exn b end.
+
+Definition show_res {A} (r : res A) : string :=
+  match r with
+  | Val _ => "Ok"
+  | Exc e s => show_exn e ++ "@" ++ site_tag s
+  end.
+
+Definition show_M {A} (m : M A) : string :=
+  fold_right (fun r acc => show_res r ++ ";" ++ acc) "" m.
+
+Definition show_store_outcomes (l : list (store * added)) : string :=
+  fold_right (fun sa acc =>
+    (match snd sa with Added => "Added" | Escaped e s => show_exn e ++ "@" ++ site_tag s end)
+    ++ "/" ++ show_nat (List.length (fst sa)) ++ ";" ++ acc) "" l.
+
+(* a decoder given by a finite table (case files): texts not listed do not decode *)
+Definition dec_table (t : list (ustring * textres)) : decoder :=
+  fun s => match alookup s t with Some r => r | None => TBad end.
